@@ -29,7 +29,7 @@ os.chdir(HERE)
 from contracts.property_map import PROPERTY_MAP  # noqa: E402
 
 VENV_PY = "/venv/bin/python"
-EVID = os.path.join(HERE, "evidence")
+EVID = os.environ.get("VERIF_EVIDENCE_DIR") or os.path.join(HERE, "evidence")  # override: development runs against scratch trees
 REPLAY = os.path.join(EVID, "replay")
 KNOWN = os.path.join(HERE, "known_findings.txt")
 BASELINE = os.path.join(HERE, "baseline_obligations.json")
